@@ -17,6 +17,7 @@ let parse_op (s : string) : C04Model.op option =
       | _ -> failwith "mut")
   | ["drop"; k] -> Some (C04Model.ODrop (nat_of_int (int_of_string k)))
   | ["conc"; _] -> None
+  | ["skip"; _] -> None
   | _ -> failwith ("c04 op: " ^ s)
 
 let show (obs, bad) =
